@@ -5,14 +5,23 @@ import json, subprocess
 claimed = {
  "C01": ("exactly rounded results of the single-rounding operations", "§5 C01"),
  "C02": ("condition flags are a function of the exact result", "§5 C02"),
- "C03": ("err != nil iff trapped condition or system limit; traps never change results", "§5 C03"),
+ "C03": ("err != nil iff trapped condition or system limit; traps never change results; ErrDecimal wrappers", "§5 C03"),
+ "C05": ("aliasing patterns by self-composition against the distinct layout", "§5 C05"),
+ "C06": ("destination independence by self-composition; write monitor on operands, context and package state", "§5 C06"),
  "C07": ("every finite result fits the context", "§5 C07"),
+ "C08": ("special-value table for every operation", "§5 C08"),
+ "C09": ("Quantize / RoundToIntegral / Ceil / Floor against an integer-rounding characterisation", "§5 C09"),
+ "C10": ("QuoInteger/Rem division identity over the upscaled integers", "§5 C10"),
+ "C15": ("Cmp against cross-scaled integers, CmpTotal against a totally ordered key", "§5 C15"),
+ "C17": ("Int64, Modf and the integer constructors are exact", "§5 C17"),
+ "C18": ("no encoded operation writes shared memory (write-set monitor), hence no race under any interleaving", "§5 C18"),
+ "C19": ("real NumDigits code for every bit length; Reduce value, count and no trailing zero", "§5 C19"),
 }
 not_applicable = {
  "C11": "Newton cores of Sqrt/Cbrt: chains of dependent symbolic/symbolic decimal divisions at >= 12 working digits are undecided by z3/cvc5 in NIA and QF_BV at the smallest configuration the code admits; no honest bound exists (DESIGN.md §5 C11)",
  "C12": "Exp/Ln/Log10/Pow depend on float64 detours (strconv.ParseFloat, math.Log), up to 1000 Taylor terms and an oracle (1 ulp of a transcendental) that no available SMT theory expresses (DESIGN.md §5 C12)",
 }
-pending = ["C04","C05","C06","C08","C09","C10","C13","C14","C15","C16","C17","C18","C19","C20"]
+pending = ["C04","C13","C14","C16","C20"]
 
 checks=[]
 for pid,(text,ref) in sorted(claimed.items()):
